@@ -566,6 +566,18 @@ func (x *Idx) sites(fn *ssa.Function) {
 				}
 			}
 		case *ssa.BinOp:
+			// IDX-6: a vertex id is never offset by a constant: "the next vertex id" means nothing unless the mesh is
+			// identity-indexed (the neighbour of a corner is the next POSITION of the index array, not id+1)
+			if v.Op == token.ADD || v.Op == token.SUB {
+				for _, pr := range [][2]ssa.Value{{v.X, v.Y}, {v.Y, v.X}} {
+					if x.kind[pr[0]] == KindV {
+						if c, ok := ssau.ConstInt(pr[1]); ok && c != 0 {
+							x.Sites = append(x.Sites, IdxSite{Fn: fn, Instr: v, Rule: "IDX-6", What: "vertex-id ± constant", ArgKind: KindV, Bad: true,
+								Detail: "a vertex id read from the index array is offset by a constant: the result is a vertex id only on identity-indexed meshes"})
+						}
+					}
+				}
+			}
 			// IDX-4: a vertex id may be offset by a vertex count, never by an index count
 			if v.Op == token.ADD || v.Op == token.SUB {
 				for _, pr := range [][2]ssa.Value{{v.X, v.Y}, {v.Y, v.X}} {
